@@ -133,7 +133,7 @@ def random_plan(rng, n_nodes, seq_ratio=(1, 4), wmax=8, kinds=None, allow_feedba
     return plan
 
 
-def build(plan, inst_order=None, wire_order=None, sysname=None):
+def build(plan, inst_order=None, wire_order=None, sysname=None, into=None, leaf_parent=None):
     """instantiates the plan with the real py4hw constructors.
        returns (sys, inputs: [Wire], outs: {(j,k): Wire}, leaves: {j: obj})"""
     import py4hw
@@ -142,7 +142,7 @@ def build(plan, inst_order=None, wire_order=None, sysname=None):
     import py4hw.logic.storage as S
     import py4hw.logic.clock as C
     import py4hw.logic.simulation as SIM
-    sysobj = py4hw.HWSystem()
+    sysobj = py4hw.HWSystem() if into is None else into
     nodes = plan['nodes']
     # wires first (any order)
     wspecs = [('in', i, None) for i in range(len(plan['inputs']))]
@@ -168,7 +168,7 @@ def build(plan, inst_order=None, wire_order=None, sysname=None):
     leaves = {}
     order = list(range(len(nodes))) if inst_order is None else list(inst_order)
     top = sysobj
-    conts = [top]
+    conts = [top if leaf_parent is None else leaf_parent]
     for di, dm in enumerate(plan.get('domains', [])[1:], 1):
         c = py4hw.Logic(conts[dm['parent']], f'dom{di}')
         if dm['gated']:
